@@ -90,7 +90,7 @@ def run(rep, tier, seed, proof_ok):
     rep.sample(cases[0]); rep.sample(cases[200]); rep.sample(cases[-1])
     # discovery model (L2_Disc/Visitors.v) against the reference derivation of the harness, on generated and stressed programs
     import progs
-    bad = progs.check_discover(25 if tier == "quick" and proof_ok else 300, seed, verbose=False)
+    bad = progs.check_discover(6 if tier == "quick" and proof_ok else 120, seed, shard=6, verbose=False)
     rep.extra["discover_mismatches"] = len(bad)
     rep.case("discover-vs-reference-derivation")
     for b in bad[:3]:
